@@ -24,7 +24,8 @@ def q2f(v):
 
 def variables_of(sc):
     v0 = {k: sc[k] for k in ("x", "lb", "ub", "type", "ptype", "mag", "fnum", "fden")}
-    v1 = dict(v0, type=TYPES[(TYPES.index(sc["type"]) + 1) % 3], ptype="abs", mag=1)
+    # (the second variable's magnitude is NEGATIVE in every second scenario: a magnitude is a factor, not a size)
+    v1 = dict(v0, type=TYPES[(TYPES.index(sc["type"]) + 1) % 3], ptype="abs", mag=-1 if (sc["x"] + sc["mag"] + sc["fnum"]) % 2 else 1)
     # the third variable sits a quarter below a LARGE upper bound (131072): values within a relative 1e-5 of a bound are inside
     v2 = (dict(v0, x=524287, lb=-INF_Q, ub=524288, type="truncate", ptype="abs", mag=4) if (sc["x"] + sc["lb"]) % 2 == 0
           else dict(v0, lb=-INF_Q, ub=INF_Q, type="mirror", ptype="abs", mag=4))
@@ -50,8 +51,9 @@ def drive(sc):
                 "perturbation_types": [int(PerturbationType.ABSOLUTE if v["ptype"] == "abs" else PerturbationType.RELATIVE) for v in vs],
                 "boundary_types": [int(BT[v["type"]]) for v in vs]}
     cfg = {
+        # (variable types are the back-end's business: declaring variables INTEGER does not round their perturbations)
         "variables": {"initial_values": [q2f(v["x"]) for v in vs], "lower_bounds": [q2f(v["lb"]) for v in vs],
-                      "upper_bounds": [q2f(v["ub"]) for v in vs]},
+                      "upper_bounds": [q2f(v["ub"]) for v in vs], **({"types": [2, 1, 2]} if (sc["x"] + sc["ub"]) % 2 else {})},
         # (every second scenario: the second realization has weight zero and the gradient is requested separately from the
         #  functions - its perturbed vectors are evaluated and reported all the same)
         "realizations": {"weights": [1.0, 0.0] if zero_weight else [1.0, 1.0]},
